@@ -7,15 +7,15 @@
    precondition holds for every overlay the apply loop builds (C15_overlay_loaded_consistently); hence the
    save phase of a push only unlinks and freshly creates files that a patch of the pushed range names,
    never truncating in place (C15_push_saves_fresh).
-   HYPOTHESIS kept visible: different names in the overlay denote different files (NoDup of the
-   normalised names) - true since a leading "./" is dropped (fix 1bdd056), "//" and "/./" inside a name are
-   the same key for Rust's Path equality; not proved in the model, whose overlay compares raw bytes.
+   That different names in the overlay denote different files is proved too: the overlay is keyed by the
+   canonical spelling of names of accepted patches (NameSafety.keys_are_different_files), as the HashMap of the
+   implementation is keyed by Path, whose equality goes by components.
    PARTIAL: reject files, backups under .pc and .pc/applied-patches are written with create/append on
    possibly existing files (they are not tree files); the hard-link observation itself is made on the
    binary by the check. *)
 From Coq Require Import List ZArith NArith Bool.
 Import ListNotations.
-From RQ Require Import Base Apply Parser Quilt QuiltProofs TreeRollback FreshInode.
+From RQ Require Import Base Apply Parser Quilt QuiltProofs TreeRollback FreshInode SavedTree.
 
 Theorem C15_one_file :
   forall dm k m cl fs fs' r,
@@ -42,11 +42,10 @@ Theorem C15_push_saves_fresh :
   forall cfg db series fs fs1 st n rejs dm cl fs2 r,
   is_file fs [] = false ->
   apply_series cfg db {| a_applied := []; a_files := [] |} 0 series fs = (fs1, ROk (st, n, rejs)) ->
-  NoDup (map (fun e => normalize (fst e)) (a_files st)) ->
   save_all dm (a_files st) cl fs1 = (fs2, r) ->
   exists added, fs_log fs2 = fs_log fs1 ++ added /\
                 all_ops added (fun q => In q (map (fun e => normalize (fst e)) (a_files st))).
-Proof. exact push_saves_fresh. Qed.
+Proof. exact push_saves_fresh_closed. Qed.
 Print Assumptions C15_push_saves_fresh.
 
 (* all_ops says: every unlink and create is on one of those paths, every create is of a new entry, no rmdir *)
